@@ -104,6 +104,8 @@ class Contract:
     def merge_paths_at_loops(self):
         """join the paths that reach a loop (one ite-merged state): the loop body is then verified once"""
         self.merge_flag = True; return self
+    def merge_paths_at_exit(self):
+        self.merge_exit_flag = True; return self
     def unfold(self, depth):
         self.unfold_depth = depth; return self
     def epoch_preserving(self):
